@@ -8,6 +8,7 @@ def _single_value(f):
     return rv
 
 
+@guarded
 def rule_fwd(repo):
     res = RuleResult('C05.FWD', 'AdjTXa.forward is AdjXa(Inv(X), a) with both callees of the op\'s own family', floor=4)
     for G in GROUPS:
@@ -36,6 +37,7 @@ def _left_retraction(v, aname, xname):
     return False
 
 
+@guarded
 def rule_retr_add(repo):
     res = RuleResult('C05.RETR', 'Retr(X, a) and every group add_ compute Exp(a) multiplied onto X from the LEFT; add_ slices `other` to '
                      'the manifold dimension of the layout table, wraps it in the family\'s own algebra type and copies the product into '
@@ -99,6 +101,7 @@ def rule_retr_add(repo):
     return res
 
 
+@guarded
 def rule_jinv(repo):
     res = RuleResult('C05.JINV', 'Jinvp(X, p) is <fam>_Jl_inv(<Fam>_Log.apply(X)) @ p with family-consistent callees, typed so3/se3/...', floor=4)
     for G in GROUPS:
@@ -126,6 +129,7 @@ def rule_jinv(repo):
     return res
 
 
+@guarded
 def rule_clone(repo):
     res = RuleResult('C05.CLONE', 'LieTensor.add works on a clone of self; __add__ delegates to add', floor=2)
     f = repo.func(LT, 'LieTensor.add')
@@ -147,6 +151,7 @@ def rule_clone(repo):
     return res
 
 
+@guarded
 def rule_dt(repo):
     res = RuleResult('C05.DT', 'Adj / AdjT apply the family\'s own AdjXa / AdjTXa and return the family\'s algebra ltype', floor=8)
     for G in GROUPS:
@@ -166,6 +171,7 @@ def rule_dt(repo):
     return res
 
 
+@guarded
 def rule_jr(repo):
     res = RuleResult('C05.JR', 'so3 Jr: the closed form dividing by the rotation angle is selected only where the angle exceeds eps '
                      '(identity elsewhere); SO3 Jr is Jr of Log(X)', floor=3)
@@ -200,6 +206,7 @@ def rule_jr(repo):
     return out
 
 
+@guarded
 def rule_adj(repo):
     from .c04 import orthogonal_families, skew_families
     res = RuleResult('C05.ADJ', 'adjoint builders have the block structure their Lie group dictates: Adj orthogonal (SO3_Adj blocks on the '
@@ -232,6 +239,7 @@ def _written_blocks(repo, fname):
     return blocks, inl
 
 
+@guarded
 def rule_blocks(repo):
     res = RuleResult('C05.BLOCKS', 'Sim3: the algebra adjoint ad(x) and the group adjoint Adj(X) = exp(ad) are written block by block and share '
                      'their block sparsity pattern (rotation-scale block, translation x rotation block, translation column, rotation block)', floor=2)
